@@ -196,7 +196,7 @@ def stream_correspondence(ck, stats):
 # entry-point oracle
 # --------------------------------------------------------------------------
 
-ASAN_DET = "detect_leaks=0:abort_on_error=0:allocator_may_return_null=1:max_malloc_fill_size=268435456:malloc_fill_byte=190"
+ASAN_DET = "detect_leaks=0:abort_on_error=0:allocator_may_return_null=1:max_malloc_fill_size=8388608:malloc_fill_byte=190"
 ENTRIES = ("path", "file", "mem", "cb")
 IDCHARS = set(b"ABCDEFGHIJKLMNOPQRSTUVWXYZ0123456789 ._-")
 
@@ -451,6 +451,17 @@ def regression_cases():
     return out
 
 
+def edit_token(off, bs):
+    """overwrite (bytes / hex string) or removal (int count) in the harness's case syntax"""
+    if isinstance(bs, int):
+        return "\td%d:%d" % (off, bs)
+    return "\t%d:%s" % (off, bs.hex() if isinstance(bs, (bytes, bytearray)) else bs)
+
+
+def edits_json(edits):
+    return [[o, bs if isinstance(bs, int) else bs.hex()] for o, bs in edits]
+
+
 def parse_entry_output(text):
     cases, cur = {}, None
     order = []
@@ -492,7 +503,7 @@ def run_entry_cases(ck, exe, td, cases, nframes, tag):
             with open(cf, "w") as o:
                 for (cid, src, trunc, edits) in todo:
                     o.write("case\t%s\t%s\t%d\t%d%s\n" % (cid, src, trunc, len(edits),
-                                                         "".join("\t%d:%s" % (off, bs.hex()) for off, bs in edits)))
+                                                         "".join(edit_token(off, bs) for off, bs in edits)))
             rc, out, err = vlib.run_exe(exe, [str(ck.seed), sdir, cf, str(nframes)], timeout=900,
                                         env={"ASAN_OPTIONS": ASAN_DET})
             parsed, order = parse_entry_output(out.decode("latin-1"))
@@ -531,10 +542,54 @@ def run_entry_cases(ck, exe, td, cases, nframes, tag):
     return allres, allab
 
 
-def judge(r, gen):
-    """The property on one case.  -> list of (kind, detail) disagreements, fmt id, class info."""
+_file_cache = {}
+
+
+def materialize(src, trunc, edits):
+    """the byte string of a case, as the harness builds it"""
+    b = _file_cache.get(src)
+    if b is None:
+        try:
+            b = open(src, "rb").read()
+        except OSError:
+            return None
+        if len(_file_cache) > 64:
+            _file_cache.clear()
+        _file_cache[src] = b
+    if edits:
+        b = bytearray(b)
+        for off, bs in edits:
+            if isinstance(bs, int):
+                if off + bs <= len(b):
+                    del b[off:off + bs]
+                continue
+            if isinstance(bs, str):
+                bs = bytes.fromhex(bs)
+            if off + len(bs) > len(b):
+                b += bytes(off + len(bs) - len(b))
+            b[off:off + len(bs)] = bs
+        b = bytes(b)
+    if 0 <= trunc < len(b):
+        b = b[:trunc]
+    return b
+
+
+def judge(r, gen, doc="?"):
+    """The property on one case.  `doc`: what the documented container signatures say about the bytes
+    (c07_layouts.documented_container: a name, None = plain file, "?" = not decidable from a signature).
+    -> list of (kind, detail) disagreements, fmt id, class info."""
     container = r["meta"].get("container") in ("1", "2")
     external = r["meta"].get("container") == "2"     # MO3 / Rar: unpacked by a helper that needs a file name
+    pre = []
+    if doc is None and container:
+        # a PLAIN file is treated as a container by the entry points that unpack: not the documented exception
+        pre.append(("container-false-positive", "the bytes carry no documented container signature, yet libxmp_decrunch takes them "
+                    "for a container (path load %s, path test %s)" % (r["L"].get("path", {}).get("res", ["?"])[0],
+                                                                      r["T"].get("path", {}).get("res", ["?"])[0])))
+        container = external = False
+    elif doc not in (None, "?") and not container:
+        pre.append(("container-missed", "documented %s signature, but libxmp_decrunch does not treat the file as a container" % doc))
+        container, external = True, doc == "external"
     types = [hexstr(v["res"][-1]) for v in r["L"].values() if v["res"][0] == "0"] + \
             [hexstr(v["res"][2]) for v in r["T"].values() if v["res"][0] == "0"]
     ttypes = [hexstr(v["res"][2]) for v in r["T"].values() if v["res"][0] == "0" and len(v["res"]) > 2]
@@ -544,7 +599,7 @@ def judge(r, gen):
             fmt_file, fmt_id = gen["formats"][t]
             break
     multi = fmt_file in gen["companion_files"]
-    problems = []
+    problems = list(pre)
     # results that change with the fill byte of the (uninitialised) stack are not a back-end matter
     uninit_l = "mem2" in r["L"] and "mem" in r["L"] and r["L"]["mem2"]["res"] != r["L"]["mem"]["res"]
     uninit_t = "mem2" in r["T"] and "mem" in r["T"] and r["T"]["mem2"]["res"] != r["T"]["mem"]["res"]
@@ -601,8 +656,6 @@ def signature_for(kind, fmt_id, fmt_file, gen):
     handle_users = {u["file"] for u in gen["hio_users"] if u["kind"] == "handleType"}
     if fmt_file in handle_users and kind in ("load-rc", "test-rc", "load-type", "test-type"):
         return "entry:%s:file-handle" % fmt_id
-    if fmt_id == "arch" and kind in ("load-rc", "test-rc"):
-        return "entry:arch:musx-trunc"
     if kind == "null-path":
         return "entry:%s:null-path" % fmt_id
     return "entry:%s:%s" % (fmt_id, kind)
@@ -636,7 +689,7 @@ def entrypoint_oracle(ck, gen, stats):
     res, aborts = run_entry_cases(ck, exe, td, base, nframes, "base")
     stats["entry_files"] = len(base)
     # second round: mutations of single-file, uncompressed, recognised inputs; loaders that use divergent ops first
-    hot = set(gen["eof_files"]) | set(gen["read8s_files"])
+    hot = set(gen["eof_files"]) | set(gen["read8s_files"]) | set(gen["iff_files"]) | {f for f in gen.get("var_size_read_files", [])}
     warm = set(gen["data_seek_files"])
     cand = []
     for cid, r in res.items():
@@ -670,8 +723,12 @@ def entrypoint_oracle(ck, gen, stats):
             en = enlarge_mutation(ck.rng, b)
             if en:
                 muts.append((en[0], -1, en[1]))
-        if fmt_file in gen["iff_files"]:
+        if fmt_file in gen["iff_files"] or fmt_file in ("loaders/med4_load.c",):
             for lab, edits in c07_layouts.append_empty_chunk(b):
+                muts.append((lab, -1, edits))
+            # lengths of 0 (and other small values) in every length-prefixed chunk, nested ones included
+            small = len(b) <= 100000
+            for lab, edits in c07_layouts.zero_length_variants(ck.rng, b, (120 if small else 6) if quick else (400 if small else 40)):
                 muts.append((lab, -1, edits))
         if src in synth and len(b) > 65536:
             # large synthetic modules: also damage them around the 64 KiB buffer boundary and near the end
@@ -685,6 +742,26 @@ def entrypoint_oracle(ck, gen, stats):
             mid = "%s.m%d" % (cid, k)
             mut_cases.append((mid, src, trunc, edits))
             src_of[mid] = (mid, src, trunc, edits, label)
+    # container signatures planted over the title of plain modules (C11's table, read-only): exact hits follow the
+    # documented exceptions, certified near misses must agree through all eight entry points
+    try:
+        import importlib
+        plants = importlib.import_module("checks.c11").SIG_PLANTS
+    except Exception as ex:         # the table is C11's: without it this part is skipped, and said so
+        plants = []
+        ck.note("signature_plants_unavailable", str(ex)[:200])
+    plant_bases = [p for p in synth if os.path.basename(p) in ("lay.mod.samples-last", "lay.s3m.ins-pat-smp")]
+    small_mods = sorted((f for f in files if f.lower().endswith((".mod", ".stm", ".s3m")) and 2000 < os.path.getsize(f) < 60000),
+                        key=lambda f: (os.path.getsize(f), f))[:3]
+    for bi, pth in enumerate(plant_bases + small_mods):
+        b0 = open(pth, "rb").read()
+        for pi, (cont, kind, ops) in enumerate(plants):
+            pb = c07_layouts.apply_plant(b0, ops)
+            edits = [(i, pb[i:i + 1]) for i in range(min(len(b0), 64)) if pb[i] != b0[i]]
+            mid = "sig%d.%d" % (bi, pi)
+            mut_cases.append((mid, pth, -1, edits))
+            src_of[mid] = (mid, pth, -1, edits, "plant:%s:%s" % (cont, kind), kind)
+    stats["signature_plants"] = len(plants) * len(plant_bases + small_mods)
     # every-byte truncation sweep of one small module per core format (all eight entry points at every prefix)
     for si, (pth, n) in enumerate(sweep):
         for t in range(1, n):
@@ -704,8 +781,16 @@ def entrypoint_oracle(ck, gen, stats):
                      "entry-point harness aborted on %s (%s): %s" % (os.path.basename(c[1]), c[4] if len(c) > 4 else "intact", sig))
         stats["entry_aborts"] += 1
     for cid, r in sorted(res.items()):
+        if cid not in src_of:
+            raise vlib.InfraError("entry-point harness reported an unknown case id %r" % cid)
         c = src_of[cid]
-        problems, fmt_id, fmt_file, container, multi = judge(r, gen)
+        cb = materialize(c[1], c[2], c[3])
+        doc = c07_layouts.documented_container(cb) if cb is not None else "?"
+        if len(c) > 5 and c[5] == "miss":
+            doc = None          # certified near miss (C11's table): no container whatever the code says
+        problems, fmt_id, fmt_file, container, multi = judge(r, gen, doc)
+        if doc is None:
+            stats["plain_by_documented_signature"] = stats.get("plain_by_documented_signature", 0) + 1
         rcs = tuple(r["L"][e]["res"][0] for e in ENTRIES if e in r["L"])
         stats["entry_cases"] += 1
         stats["rc_" + (rcs[1] if len(rcs) > 1 else "?")] = stats.get("rc_" + (rcs[1] if len(rcs) > 1 else "?"), 0) + 1
@@ -722,7 +807,7 @@ def entrypoint_oracle(ck, gen, stats):
             stats["entry_loaded"] += 1
         for kind, detail in problems:
             sig = signature_for(kind, fmt_id, fmt_file, gen)
-            ck.violation(sig, {"kind": "entry", "case": [c[0], c[1], c[2], [[o, bs.hex()] for o, bs in c[3]]],
+            ck.violation(sig, {"kind": "entry", "case": [c[0], c[1], c[2], edits_json(c[3])],
                                "mutation": label, "format": fmt_id},
                          "%s [%s %s, %d bytes]: %s" % (sig, os.path.basename(c[1]), label, int(r["meta"]["size"]), detail))
             stats["entry_disagreements"] += 1
@@ -842,7 +927,8 @@ def run(ck):
     # the translator-generated premise is built on its own: if it breaks (somebody new looks inside a handle)
     # the rest of the check still runs and searches for a failing input
     gen_req = ["Xmp.Gen.HioUsers.hioUsers_known", "Xmp.Gen.HioUsers.hioUsers_no_loader", "Xmp.Gen.HioUsers.hioUsers_no_field",
-               "Xmp.Gen.HioUsers.eofSites_known", "Xmp.Gen.HioUsers.eofSites_no_untested"]
+               "Xmp.Gen.HioUsers.eofSites_known", "Xmp.Gen.HioUsers.eofSites_no_untested",
+               "Xmp.Gen.HioUsers.readSites_item_size_known"]
     ok_gen, out_gen = vlib.lean_build(["XmpModel.Gen.HioUsers"])
     if not ok_gen:
         errs = re.findall(r"error: (\S+?):(\d+):\d+: ([^\n]*)", out_gen)
@@ -850,7 +936,8 @@ def run(ck):
                     "every hio_eof use is a reviewed one)",
                     "generated lists no longer satisfy the allowed classes: users=%s eof sites=%s ; %s" % (
                         ["%s:%s:%s" % (u["file"], u["func"], u["kind"]) for u in gen["hio_users"]],
-                        ["%s:%s:%s x%d" % (e["file"], e["func"], e["use"], e["count"]) for e in gen["eof_sites"]],
+                        ["%s:%s:%s x%d" % (e["file"], e["func"], e["use"], e["count"]) for e in gen["eof_sites"]] +
+                        ["var-size read %s:%s x%d" % (e["file"], e["func"], e["count"]) for e in gen["var_size_reads"]],
                         "; ".join("%s:%s %s" % e for e in errs[:2])))
     ck.proofs(["XmpProps.C07"] + (["XmpModel.Gen.HioUsers"] if ok_gen else []),
               required=REQUIRED + (gen_req if ok_gen else []), drivers=["drv_c07"])
@@ -891,6 +978,7 @@ def replay(ck, rp):
         print("VIOLATION property=C07 replay=%s" % path if bad else "see outputs above (real F/M/C vs model)")
         return 1
     if isinstance(r, dict) and r.get("kind") == "entry":
+        import c07_layouts
         gen = gen_hio_users.generate()
         exe = vlib.build_harness("c07_entrypoints", ["c07_entrypoints.c"], extra=["-Wl,--wrap=fopen,--wrap=opendir"])
         td = os.path.join(tmpdir(), "replay-%d" % os.getpid())
@@ -903,7 +991,7 @@ def replay(ck, rp):
             if os.path.exists(cand):
                 src = cand
         cf = os.path.join(td, "case.txt")
-        open(cf, "w").write("case\t%s\t%s\t%d\t%d%s\n" % (cid, src, trunc, len(edits), "".join("\t%d:%s" % (o, h) for o, h in edits)))
+        open(cf, "w").write("case\t%s\t%s\t%d\t%d%s\n" % (cid, src, trunc, len(edits), "".join(edit_token(o, h) for o, h in edits)))
         rc, out, err = vlib.run_exe(exe, [str(rp.get("seed", 1)), td, cf, "3"], env={"ASAN_OPTIONS": ASAN_DET})
         text = out.decode("latin-1")
         print(text)
@@ -911,7 +999,11 @@ def replay(ck, rp):
         parsed, _ = parse_entry_output(text)
         bad = rc != 0
         for k, v in parsed.items():
-            problems = judge(v, gen)[0]
+            cbytes = materialize(src, trunc, [(o, h) for o, h in edits])
+            doc = c07_layouts.documented_container(cbytes) if cbytes is not None else "?"
+            if str(r.get("mutation", "")).endswith(":miss"):
+                doc = None
+            problems = judge(v, gen, doc)[0]
             for kind, detail in problems:
                 print("DISAGREEMENT %s: %s" % (kind, detail))
                 bad = True
